@@ -25,7 +25,8 @@ namespace etl {
 {
     TETL_PRECONDITION(str != nullptr);
 #if defined(__clang__)
-    return __builtin_strchr(str, ch);
+    // converted here: Clang's constant evaluator does not match an int that is not representable as char
+    return __builtin_strchr(str, static_cast<char>(ch));
 #else
     return etl::detail::strchr<char const>(str, ch);
 #endif
@@ -35,7 +36,8 @@ namespace etl {
 {
     TETL_PRECONDITION(str != nullptr);
 #if defined(__clang__)
-    return __builtin_strchr(str, ch);
+    // converted here: Clang's constant evaluator does not match an int that is not representable as char
+    return __builtin_strchr(str, static_cast<char>(ch));
 #else
     return etl::detail::strchr<char>(str, ch);
 #endif
